@@ -101,14 +101,14 @@ func (C16) Generate(r *rand.Rand, tier string, idx int) *drv.Scenario {
 }
 
 type njExec struct {
-	w       *drv.World
-	head    int // version index of the open master head
-	uuids   []string
-	model   map[int]map[string]interface{} // id -> full annotation incl. stamps (head state)
-	pairs   [][2]int                        // (committed parent, child head at that time) holding identical data
-	pairOK  map[int]bool
-	rounds  int
-	dirty   bool // the head was modified since the last pair point
+	w      *drv.World
+	head   int // version index of the open master head
+	uuids  []string
+	model  map[int]map[string]interface{} // id -> full annotation incl. stamps (head state)
+	pairs  [][2]int                       // (committed parent, child head at that time) holding identical data
+	pairOK map[int]bool
+	rounds int
+	dirty  bool // the head was modified since the last pair point
 }
 
 func (e *njExec) base(v int) string { return "/api/node/" + e.uuids[v] + "/nj" }
